@@ -13,6 +13,7 @@ search: real rows vs the Lean reference semantics (distinct connected rows) on e
 from __future__ import annotations
 
 from collections import Counter
+from fractions import Fraction
 
 from harness.common import Check, Driver, canon
 from harness.gen import multi as M
@@ -111,13 +112,15 @@ def classify(c):
     others = [m for m in dict.fromkeys(order) if m != base]
     if mm != base and others and any(fans_out(models, mm, o) for o in dict.fromkeys(order) if o != mm):
         return "F3-nonbase-metric-fanout"
-    if has_null and others:
+    # symmetric aggregates are only emitted when some joined model can multiply the metric model's rows
+    fan = any(fans_out(models, mm, o) for o in dict.fromkeys(order) if o != mm)
+    if has_null and others and fan:
         return "F2-null-measure-symmetric"
     for ref in q["metrics"]:
         x = next(x for x in models[mm]["measures"] if x["name"] == ref.split(".")[1])
-        if x["filters"] and x["agg"] in ("count", "avg") and others:
+        if x["filters"] and x["agg"] in ("count", "avg") and others and fan:
             return "F26-filtered-symmetric-count"
-        if x["filters"] and x["agg"] == "sum" and others:
+        if x["filters"] and x["agg"] == "sum" and others and fan:
             return "F2-null-measure-symmetric"      # the metric filter NULLs the measure of the rows it excludes
     return None
 
@@ -200,6 +203,54 @@ def directed_search(ck, suspects, stats):
     stats["search_cases"] = len(todo)
 
 
+def joint_metrics(ck, rng, n, stats):
+    """metrics of two or more models in one unfiltered query (the fan-out decision between the metric models): in every
+    dimension group each metric has the value it has when it is queried alone with the same dimensions — on the real code"""
+    from harness.props import c03
+    for _ in range(n):
+        ms, tables = M.gen_forest(rng)
+        if len(ms) < 2:
+            continue
+        layer = M.build_layer(ms, tables)
+        q = M.gen_query(rng, ms, single_metric_model=False)
+        q = dict(q, filters=[], order_by=[], limit=None, offset=None)
+        if rng.random() < 0.6:
+            # one metric of each of two models chosen at random, grouped by nothing or by one dimension of any model
+            a, b = rng.sample([m for m in ms if m["measures"]], 2) if len([m for m in ms if m["measures"]]) >= 2 else (None, None)
+            if a is not None:
+                q["metrics"] = [f"{m['name']}.{rng.choice(m['measures'])['name']}" for m in (a, b)]
+                dm = rng.choice(ms)
+                q["dims"] = [f"{dm['name']}.{rng.choice(dm['dims'])['name']}"] if dm["dims"] and rng.random() < 0.5 else []
+        mms = list(dict.fromkeys(x.split(".")[0] for x in q["metrics"]))
+        if len(mms) < 2:
+            continue
+        case = {"models": M.lean_models(ms), "query": q, "tables": tables}
+        key = c03.classify(case)
+        joint = M.run_real(layer, q)
+        if joint["outcome"] != "ok":
+            continue
+        nd = len(q["dims"])
+        stats["joint_queries"] += 1
+        jrows = {tuple(r[:nd]): r for r in c01.canon_rows(joint["rows"])}
+        for mi, met in enumerate(q["metrics"]):
+            alone = M.run_real(layer, dict(q, metrics=[met]))
+            if alone["outcome"] != "ok":
+                continue
+            for r in c01.canon_rows(alone["rows"]):
+                j = jrows.get(tuple(r[:nd]))
+                if j is None:
+                    continue
+                a, b = j[nd + mi], r[nd]
+                same = (a is None and b is None) or (a is not None and b is not None and (duck.close(a, b) if isinstance(a, Fraction) and isinstance(b, Fraction) else a == b))
+                if not same:
+                    ck.fail_input(f"{met} is {b} when queried alone and {a} next to metrics of {[x for x in mms if x != met.split('.')[0]]} (group {r[:nd]})",
+                                  {"models": case["models"], "tables": tables, "query": q, "metric": met, "joint_sql": joint.get("sql", "")[:1500]}, finding_key=key)
+                    break
+            else:
+                continue
+            break
+
+
 def run(ck: Check):
     ck.prove("SideVerif.Properties.C02", ["SideVerif.Proofs.Sym"])
     rng = ck.rng
@@ -218,6 +269,7 @@ def run(ck: Check):
         directed_search(ck, [c for c in cases if c.get("_mismatch")], stats)
     if disagree == 0:
         ck.obligation("correspondence C02: SQLGenerator vs genJoin (structural + behavioural)", True, f"{len(cases)} cases")
+    joint_metrics(ck, rng, (600 if thorough else 100) * (2 if ck.broken else 1), stats)
     shapes = Counter(tuple(sorted(r["type"] for m in c["models"] for r in m["rels"])) for c in cases)
     ck.coverage.update({
         "evaluations": len(cases) + stats.get("search_cases", 0), "distinct_nontrivial": stats["structural_ok"],
